@@ -17,6 +17,10 @@ import (
 )
 
 type Exec struct {
+	assertHits  map[int]int // site assertion (index in the contract) -> number of call sites it matched
+	refBound    string // allocation bound for references inside objects described by validFacts (default: entry)
+	envCalls    map[string]bool
+	entryBinds  []Val
 	cutParts    map[string][]string
 	eng         *Engine
 	vc          *VC
